@@ -450,7 +450,24 @@ func main() {
 	w("\t}}\n")
 	w("\tfg := []float64{1, -1, 2, 0.5, 3, -4, 8, 0.25}\n")
 	w("\tfor i, a := range fg { for j, bb := range fg { d := newDigest(); x := complex(a, bb); for _, c := range fg { y := complex(c, 0); r := quo_complex128(x, y); d.u64(fb(real(r))); d.u64(fb(imag(r))); y2 := complex(0, c); r = quo_complex128(x, y2); d.u64(fb(real(r))); d.u64(fb(imag(r))); r64 := quo_complex64(complex64(x), complex64(y)); d.u64(gb(real(r64))); d.u64(gb(imag(r64))) }; println(\"C06/complex/quo/x=\"+itoa(int64(i))+\",\"+itoa(int64(j)), d.String()) } }\n")
+	// constants: every float literal as a typed float32 / float64 / complex64 constant operand on every route
+	// (stored, widened, compared with and combined with the same value converted at run time, passed, in literals)
+	lits := []string{"0.1", "0.3", "1e-3", "1.0000001", "16777217", "3.4028234e38", "1e-45", "0.5", "1.0 / 3", "-0.7", "123456.789", "2.5e-39", "0.1 + 0.2", "33554433", "1e10", "6.02e23"}
+	w("\tlits := []float64{%s}\n", strings.Join(lits, ", "))
+	for k, L := range lits {
+		L = "(" + L + ")"
+		w("\t{\n\t\tconst c32 float32 = %[1]s\n\t\tconst c64 float64 = %[1]s\n\t\tconst cc complex64 = complex(%[1]s, %[1]s)\n\t\tvar v32 float32 = %[1]s\n\t\tr32 := float32(lits[%[2]d])\n\t\tw32 := float32(%[1]s)\n", L, k)
+		w("\t\tprintln(\"C06/fconst/stored/k=%d\", hex(gb(c32)), hex(gb(v32)), hex(gb(w32)), hex(fb(float64(c32))), hex(fb(float64(v32))), hex(fb(float64(w32))), hex(fb(c64)), hex(gb(float32(c64))))\n", k)
+		w("\t\tprintln(\"C06/fconst/compare/k=%d\", hex(bu(c32 == r32)), hex(bu(v32 == r32)), hex(bu(r32 == %[2]s)), hex(bu(float64(r32) == float64(v32))), hex(bu(r32 < c32)), hex(bu(r32 > c32)), hex(bu(lits[%[1]d] == c64)), hex(bu(float64(r32) == c64)))\n", k, L)
+		w("\t\tprintln(\"C06/fconst/arith/k=%d\", hex(fb(float64(v32)+0.5)), hex(gb(c32*r32)), hex(gb(r32+c32)), hex(gb(r32-%[2]s)), hex(gb(%[2]s/r32)), hex(fb(float64(r32)*c64)), hex(fb(float64(v32)*10)))\n", k, L)
+		w("\t\tprintln(\"C06/fconst/passed/k=%d\", hex(gb(id32(%[2]s))), hex(fb(wide32(%[2]s))), hex(fb(wide32(c32))), hex(fb(float64([]float32{%[2]s}[0]))), hex(fb(float64([2]float32{1: %[2]s}[1]))), hex(fb(float64(st32{%[2]s}.f))), hex(fb(float64(map[int]float32{1: %[2]s}[1]))), hex(fb(float64(ret32_%[1]d()))))\n", k, L)
+		w("\t\tprintln(\"C06/fconst/complex/k=%d\", hex(gb(real(cc))), hex(fb(float64(imag(cc)))), hex(fb(float64(real(complex64(complex(%[2]s, 2)))))), hex(fb(float64(imag(cwide(cc))))), hex(bu(complex(r32, r32) == cc)))\n\t}\n", k, L)
+	}
 	w("}\n")
+	w("type st32 struct{ f float32 }\nfunc id32(x float32) float32 { return x }\nfunc wide32(x float32) float64 { return float64(x) }\nfunc cwide(c complex64) complex128 { return complex128(c) }\n")
+	for k, L := range lits {
+		w("func ret32_%d() float32 { return %s }\n", k, L)
+	}
 	return diffrun.Program{Name: "c06_float", Files: map[string]string{"main.go": b.String()}}
 }
 
